@@ -119,4 +119,4 @@ def install(prog):
         except KeyError:
             continue
         m.funcs[local] = fdef
-        prog.extracted[qual] = {'params': params, 'returns': live_out, 'lines': (block.lineno, getattr(block, 'end_lineno', block.lineno)), 'drops': e['drops']}
+        prog.extracted[qual] = {'n_outer_params': len(m.funcs[e['outer']].args.args), 'params': params, 'returns': live_out, 'lines': (block.lineno, getattr(block, 'end_lineno', block.lineno)), 'drops': e['drops']}
